@@ -122,7 +122,8 @@ impl<'a> SpannedDiagnosticFormatter<'a> {
             let underline_span = Span::new(
                 span.start(),
                 span.end()
-                    .min(span.start() + (source_line.len() - span_offset_from_start)),
+                    // The span may start inside the line terminator (between "\r" and "\n").
+                    .min(span.start() + source_line.len().saturating_sub(span_offset_from_start)),
             );
             let (line_num, _) = self
                 .nlc()
@@ -688,6 +689,16 @@ mod test {
         let formatter = SpannedDiagnosticFormatter::new(s, &test_path);
         let out = formatter.underline_span_with_text(Span::new(2, 2), "Here".to_string(), '^');
         assert_eq!(out, "2| \n   ^ Here");
+    }
+
+    #[test]
+    fn underline_from_inside_crlf() {
+        // A span that starts between the "\r" and the "\n" of a line terminator.
+        let s = "a\r\nb";
+        let test_path = PathBuf::from("test");
+        let formatter = SpannedDiagnosticFormatter::new(s, &test_path);
+        let out = formatter.underline_span_with_text(Span::new(2, 4), "Here".to_string(), '^');
+        assert_eq!(out, "1| a\n     ^\n2| b\n   ^ Here");
     }
 
     #[test]
